@@ -70,6 +70,28 @@ var directedCases = []directed{
 			st.exec(st.mkCopyTo(st.at(1, lrPath...), st.at(0, lrPath...)), true)
 		}
 	}},
+	{"C07-a latent: two entries aliased by a CopyTo into a filtered slice hold equal content; the aliasing surfaces at a later Set", func(st *state) {
+		st.addRoot("L0", logsWith(3, "d"), false)
+		src := logsWith(1, "s")
+		sl := src.ResourceLogs().At(0).ScopeLogs().At(0).LogRecords()
+		sl.AppendEmpty()
+		sl.AppendEmpty() // elements 1 and 2 of the source are equal (both empty)
+		st.addRoot("L1", src, false)
+		dst := st.at(0, lrPath...)
+		i := 0
+		if !st.exec(&step{op: "RemoveIf", kind: "ptrslice", recv: dst, mut: []int{0}, desc: "L0 LogRecords.RemoveIf(index 1)",
+			impl: func() {
+				st.resolve(dst).Interface().(plog.LogRecordSlice).RemoveIf(func(plog.LogRecord) bool { i++; return i == 2 })
+			},
+			model: func() { dst.n.Kids = append(dst.n.Kids[:1:1], dst.n.Kids[2]); dst.n.Used, dst.n.Stale = true, true }}, true) {
+			return
+		}
+		if !st.exec(st.mkCopyTo(st.at(1, lrPath...), st.at(0, lrPath...)), true) {
+			return
+		}
+		e1 := st.at(0, append(append([]string(nil), lrPath...), "#1")...)
+		st.exec(st.mkSetField(e1, e1.ti.FieldByName("SeverityText")), true)
+	}},
 	{"C07-b Map.Remove leaves a stale entry whose value wrapper CopyTo re-uses", func(st *state) {
 		d := pcommon.NewMap()
 		for _, k := range []string{"a", "b", "c"} {
